@@ -59,9 +59,9 @@ package server
 //@ modifies q.nextOffset.v
 
 //@ func quorumAckTracker.WaitForCommitOffsetAsync(q, ctx, offset, cb)
-//@ property C08 C01
+//@ property C08 C01 C04
 //@ requires cb != nil
-//@ assert at call Callback.OnComplete#0: q.requiredAcks == 0 || q.commitOffset.v >= offset
+//@ assert at call Callback.OnComplete#0: (q.requiredAcks == 0 || q.commitOffset.v >= offset) && !q.closed
 //@ ensures q.commitOffset.v == old(q.commitOffset.v) && q.headOffset.v == old(q.headOffset.v)
 //@ preserves fields(util.BitSet), fields(map[int64]*server/util.BitSet), q.tracker, q.requiredAcks, q.replicationFactor, q.cursorIdxGenerator
 
@@ -209,6 +209,7 @@ package server
 // synced — every other ack is sent by the sync routine after wal.Sync.
 //
 //@ func followerController.append(fc, req, stream) (err)
+//@ holdslock
 //@ property C03 C04
 //@ requires fc.wal != nil && walInv(as(fc.wal, *wal.wal)) && fc.log != nil && fc.writeLatencyHisto != nil && fc.syncCond != nil
 //@ requires req != nil && req.Entry != nil && req.Entry.Offset < 4611686018427387903 && stream != nil
@@ -241,6 +242,7 @@ package server
 // and on success the node is fenced in exactly the requested term.
 //
 //@ func followerController.NewTerm(fc, req) (res, err)
+//@ holdslock
 //@ property C04 C05
 //@ requires req != nil && fc.wal != nil && fc.log != nil && fc.ctx != nil
 //@ assert at call setLogger#0: fc.db != nil && ghost(dbTerm, fc.db) == req.Term && fc.term == req.Term
@@ -254,6 +256,7 @@ package server
 // term does not change.
 //
 //@ func followerController.Truncate(fc, req) (res, err)
+//@ holdslock
 //@ property C04 C03
 //@ requires req != nil && req.HeadEntryId != nil && req.HeadEntryId.Offset >= -1 && fc.wal != nil && walInv(as(fc.wal, *wal.wal)) && fc.ctx != nil
 //@ ensures fc.term == old(fc.term)
@@ -310,6 +313,7 @@ package server
 // committed any more on behalf of the old term).
 //
 //@ func leaderController.NewTerm(lc, req) (res, err)
+//@ holdslock
 //@ property C04 C05
 //@ requires req != nil && lc.db != nil && lc.wal != nil && lc.log != nil && lc.ctx != nil && lc.sessionManager != nil && lc.headOffsetGauge != nil && lc.commitOffsetGauge != nil
 //@ requires forall k string :: inmap(lc.followers, k) ==> lc.followers[k] != nil
